@@ -13,6 +13,8 @@ PROPS["C08"] = dict(
         "Zrnt.Proofs.C08.afterUpgrade_eq_ctxOf",
         "Zrnt.Proofs.C08.block_eq_ctxOf",
         "Zrnt.Proofs.C08.afterDeposit_eq_ctxOf",
+        "Zrnt.Proofs.C08.ctx_answers_eq_spec",
+        "Zrnt.Proofs.C08.live_ctx_answers_eq_zrnt_ctx",
         "Zrnt.Proofs.C08.epochWritesB_sound",
         "Zrnt.Proofs.C08.checked_step_inEpoch",
         "Zrnt.Proofs.C08.checked_step_boundary",
@@ -26,7 +28,7 @@ PROPS["C08"] = dict(
     components=["ctxcheck", "chain", "flat"],
     level="proof",
     trusted_base=TB_COMMON + [
-        "ctxOf (lean/Zrnt/Beacon/Ctx.lean): the context of a state written with the consensus spec's functions (lean/Zrnt/Beacon/Spec/Helpers.lean: get_active_validator_indices, get_seed, compute_shuffled_index, compute_committee) — the oracle for 'the context computed from scratch'",
+        "ctxOf (lean/Zrnt/Beacon/Ctx.lean): the context of a state written with the consensus spec's functions (lean/Zrnt/Beacon/Spec/Helpers.lean: get_active_validator_indices, get_seed; lean/Zrnt/Beacon/Committees.lean Spec: compute_committee, compute_proposer_index over lean/Zrnt/Shuffle/Spec.lean computeShuffledIndex — the oracles of C07/C06) — the oracle for 'the context computed from scratch'",
         "the chain generator go/internal/chain (valid signed chains on the real code, all forks); what it does not generate the correspondence does not see — the input distribution is recorded in the evidence",
         "the canonical context dump go/internal/ctxcheck/dump.go (every exported field/getter of EpochsContext, pubkey cache restricted to the state's indices) and the flat state format",
         "Lean SHA-256 (seeds, shuffling, proposer sampling are hash-driven: every compared list depends on it)",
@@ -37,6 +39,7 @@ PROPS["C08"] = dict(
         technique="Lean 4 proof + Go/Lean three-way differential correspondence along chains",
         design_ref="DESIGN.md 5/C08", engine="lean"),
     assumptions=[
+        "live_ctx_answers_eq_zrnt_ctx: the hash returns 32 bytes (hypothesis hH, as in C06/C07); CfgOK, SHUFFLE_ROUND_COUNT <= 255, registry <= 2^40 entries (C07's domain)",
         "MIN_SEED_LOOKAHEAD >= 1, MAX_SEED_LOOKAHEAD >= 1, EPOCHS_PER_HISTORICAL_VECTOR > MIN_SEED_LOOKAHEAD + 3 (all published presets; the chain generator's random configurations keep them)",
         "the pubkey cache is compared only on the indices of the state (it is designed to know more: C16)",
         "registries never contain the same pubkey twice (C13 genesis_pubkeys_nodup, process_deposit)",
